@@ -483,8 +483,8 @@ func c17R5(c *Ctx) {
 			}
 		case *ast.CallExpr:
 			if sel, ok := ast.Unparen(t.Fun).(*ast.SelectorExpr); ok && sel.Sel.Name == "Add" && len(t.Args) == 3 {
-				if ue, ok := ast.Unparen(t.Args[1]).(*ast.UnaryExpr); ok && ue.Op == token.AND && cp != nil && identObj(info, ue.X) == cp &&
-					identObj(info, t.Args[0]) == info.Defs[bl.Decl.Type.Params.List[0].Names[0]] {
+				if ue, ok := ast.Unparen(derefExpr(bl, t.Args[1])).(*ast.UnaryExpr); ok && ue.Op == token.AND && cp != nil && identObj(info, ue.X) == cp &&
+					identObj(info, derefExpr(bl, t.Args[0])) == info.Defs[bl.Decl.Type.Params.List[0].Names[0]] {
 					okAdd = true
 				}
 			}
@@ -581,6 +581,7 @@ func cachedAuthoritative(c *Ctx, rule string) {
 	}
 	info := fn.Info()
 	var okObj types.Object
+	var okIdent *ast.Ident
 	var lookup *ast.CallExpr
 	var cloud []*ast.CallExpr
 	for _, cs := range p.CallsIn(fn) {
@@ -588,15 +589,16 @@ func cachedAuthoritative(c *Ctx, rule string) {
 			continue
 		}
 		if cs.Callee.Name() == "Get" && cs.Callee.Pkg() != nil && strings.HasSuffix(cs.Callee.Pkg().Path(), "apimachinery/pkg/util/cache") && cs.Lit == nil {
-			if _, lhs := assignedFromCall(fn, cs.Call); len(lhs) == 2 && lhs[1] != nil {
+			if as, lhs := assignedFromCall(fn, cs.Call); len(lhs) == 2 && lhs[1] != nil {
 				okObj, lookup = lhs[1], cs.Call
+				okIdent, _ = ast.Unparen(as.Lhs[1]).(*ast.Ident)
 			}
 		}
 		if cs.Callee.Name() == "DescribeVSwitchByID" || reachesCallee(p, p.FuncOf(cs.Callee), "DescribeVSwitchByID", 3) {
 			cloud = append(cloud, cs.Call)
 		}
 	}
-	if okObj == nil || len(cloud) == 0 {
+	if okObj == nil || okIdent == nil || len(cloud) == 0 {
 		c.Undec(rule, "GetByID: cache lookup and cloud call", p.Pos(fn.Decl), fn.Key(), "v, ok := cache.Get(id) … DescribeVSwitchByID", fmt.Sprintf("lookup=%v cloud calls=%d", okObj != nil, len(cloud)))
 		return
 	}
@@ -620,7 +622,9 @@ func cachedAuthoritative(c *Ctx, rule string) {
 			c.Undec(rule, "GetByID: cloud call statement", p.Pos(call), fn.Key(), "", "not inside a simple statement")
 			continue
 		}
-		c.Require(rule, "GetByID: the cloud is asked only on a miss", fn, stmt, "!"+okObj.Name(), nil)
+		c.RequireF(rule, "GetByID: the cloud is asked only on a miss", fn, stmt, "!"+okObj.Name()+" (the lookup's ok result)", func(e *FactEngine) (*Formula, error) {
+			return mkNot(e.Cond(okIdent)), nil
+		})
 	}
 	_ = info
 }
